@@ -203,6 +203,17 @@ def c06_spec(draw, max_glyphs=9, max_passes=3):
                        actions=[dict(op='copy', ref=1, attrs=[]), dict(op='keep', attrs=[])])])
             passes[nsub:nsub] = [mark, dup]
         nsub += 2
+    if draw(st.integers(0, 7)) == 0:
+        # a base with three marks attached, then (next pass) the middle mark re-attached to the first one: the parent's child list loses
+        # a member from its middle, and the remaining children must still be positioned
+        b, mk = draw(st.sampled_from(letters)), draw(st.sampled_from(marks))
+        def att(t, ax, ay):
+            return dict(op='keep', attrs=[['attach', t, None], ['attx', 0, ['lit', ax]], ['atty', 0, ['lit', ay]], ['withx', 0, ['lit', 0]], ['withy', 0, ['lit', 0]]])
+        three = dict(pre=0, maxloop=200, reverse=False, rules=[dict(items=[b - 1, mk - 1, mk - 1, mk - 1], constraint=None, adjust=0,
+                     actions=[dict(op='keep', attrs=[]), att(0, 100, 300), att(0, 200, 400), att(0, 300, 500)])])
+        regraft = dict(pre=0, maxloop=200, reverse=False, rules=[dict(items=[b - 1, mk - 1, mk - 1, mk - 1], constraint=None, adjust=0,
+                       actions=[dict(op='keep', attrs=[]), dict(op='keep', attrs=[]), att(1, 50, 150), dict(op='keep', attrs=[])])])
+        passes += [three, regraft]
     spec = dict(upem=1000, silf_version=draw(st.sampled_from([0x00020000, 0x00030000, 0x00040000, 0x00050000])),
                 glat_version=draw(st.sampled_from([1, 2, 3])), gloc_long=draw(st.booleans()),
                 dir=draw(st.integers(0, 1)), nuser=nuser, ngattr=A0 + NGATTR_USER + 1, glyphs=glyphs, cmap=cmap, classes=classes,
